@@ -27,6 +27,10 @@ CondNames == DOMAIN CondVals \cup {"undef"}
 CondCtx == [n \in DOMAIN CondVals |-> CondVals[n]]
 
 Marks == <<65, 66, 67>>           \* A B C
+\* the same chains with an empty body in one branch (an empty branch still ends the chain)
+IfProgEmpty(conds, hasEl, k) ==
+    <<If([i \in 1..Len(conds) |-> Var(conds[i])], [i \in 1..Len(conds) |-> IF i = k THEN <<>> ELSE <<T1(Marks[i])>>],
+         IF hasEl THEN <<T1(69)>> ELSE <<>>, hasEl), T1(46)>>
 IfProg(conds, hasEl) ==
     <<If([i \in 1..Len(conds) |-> Var(conds[i])], [i \in 1..Len(conds) |-> <<T1(Marks[i])>>],
          IF hasEl THEN <<T1(69)>> ELSE <<>>, hasEl), T1(46)>>
@@ -37,6 +41,9 @@ IfCases == {[fam |-> "ifc", prog |-> IfProg(cq, el), ctx |-> CondCtx,
                       \cup {"cond:" \o CondVals[cq[i]].t : i \in {j \in 1..Len(cq) : cq[j] # "undef"}}]
             : cq \in CondSeqs, el \in BOOLEAN}
 
+EmptyBranchCases == UNION {{[fam |-> "ifc", prog |-> IfProgEmpty(cq, el, k), ctx |-> CondCtx,
+                              tags |-> {"if", "emptybranch", "conds:" \o ToString(Len(cq))} \cup (IF el THEN {"else"} ELSE {})]
+                             : k \in 1..Len(cq)} : cq \in UNION {[1..n -> {"c00", "c01", "c02", "c06"}] : n \in 1..MaxConds}, el \in BOOLEAN}
 \* literal conditions too (no context): the same values written in the template
 LitConds == {LB(FALSE), LB(TRUE), LI(0), LI(1), LS(<<>>), LS(<<97>>), Lit(Null), Arr(<<>>), Arr(<<LI(0)>>),
              Hash(<<>>, <<>>), Hash(<<LS(<<107>>)>>, <<LI(0)>>)}
@@ -126,7 +133,19 @@ SetProgs == UNION {[1..n -> SetAlphabet] : n \in 1..MaxSetLen}
 SetCases == {[fam |-> "setp", prog |-> <<Set("x", LI(1)), Set("y", LI(0))>> \o p \o <<T1(124), PrintS(Var("x")), T1(44), PrintS(Var("y"))>>,
               ctx |-> EmptyFn, tags |-> {"set"} \cup {p[i].k : i \in 1..Len(p)}] : p \in SetProgs}
 
-AllCases == IfCases \cup CompIfCases \cup LitIfCases \cup LoopCases \cup KvCases \cup NestCases \cup Nest3 \cup SetCases
+\* null is a value like any other: assigning it replaces the previous value, iterating over it binds it
+NullCases ==
+    {[fam |-> "setp", ctx |-> ("v" :> VI(4)), tags |-> {"set", "null"},
+      prog |-> <<Set("x", LI(1)), Set("x", nul), T1(91), PrintS(Var("x")), T1(93), IfElse(Test(Var("x"), "null", <<>>, FALSE), <<T1(110)>>, <<T1(118)>>)>>]
+        : nul \in {Lit(Null), Var("undefinedvar")}}
+    \cup {[fam |-> "loop", ctx |-> ("xs" :> VL(<<VI(1), Null, VI(3)>>)), tags |-> {"for", "null-element"},
+            prog |-> <<For1("x", Var("xs"), <<T1(91), PrintS(Var("x")), T1(93)>>)>>]}
+    \cup {[fam |-> "loop", ctx |-> EmptyFn, tags |-> {"for", "null-element", "reset-in-body"},
+            prog |-> <<For1("i", Lit(VL(<<VI(1), VI(2), VI(3)>>)),
+                           <<Set("hit", Lit(Null)), If1(Bin("==", Var("i"), LI(2)), <<Set("hit", Var("i"))>>), T1(91), PrintS(Var("hit")), T1(93)>>)>>]}
+    \cup {[fam |-> "setp", ctx |-> ("v" :> VI(4)), tags |-> {"set", "null", "ctxvar"},
+            prog |-> <<Set("v", Lit(Null)), T1(91), PrintS(Var("v")), T1(93)>>]}
+AllCases == IfCases \cup EmptyBranchCases \cup NullCases \cup CompIfCases \cup LitIfCases \cup LoopCases \cup KvCases \cup NestCases \cup Nest3 \cup SetCases
 
 World(c) == MkW(("main" :> c.prog), {}, {}, NoFault)
 Ref(c) == Render(World(c), "main", c.ctx)
